@@ -112,12 +112,14 @@ def _lean_pipeline(prop: str, clean: bool = False) -> LeanStatus:
         return st
     # a translator section that failed keeps its previous text; only the properties consuming it lose their tie
     st.extract_ok = True
+    failed_sections: dict = {}
     try:
         status = json.loads((LEAN / ".lake" / "extract_status.json").read_text())
+        failed_sections = dict(status.get("failed", {}))
+        tie_secs = tie_sections_of(prop)
         for name, props in status.get("affects", {}).items():
-            if name == "extract_engine" and prop in props:   # EngineTie (M6): Engine.lean does not consume this section, so the
-                st.tie_msg = f"translator failed: section {name}: {status['failed'][name]}"   # model stays usable for the search
-                continue
+            if name in tie_secs:   # a tie module's own section: the hand-written model does not consume it, so the model stays
+                continue           # usable for the failing-input search; _ties() reports the broken tie
             if prop in props:
                 st.extract_ok = False
                 st.extract_msg = f"section {name}: {status['failed'][name]}"
@@ -167,64 +169,83 @@ def _lean_pipeline(prop: str, clean: bool = False) -> LeanStatus:
         if not set(axs) <= ACCEPTED_AXIOMS:
             st.bad_axioms[name] = axs
     st.audit_ok = len(st.theorems) > 0
-    _engine_tie(prop, st)   # EngineTie (M6): engine properties additionally need Properties/EngineTie.lean
+    _ties(prop, st, failed_sections)   # tie modules of this property (see below)
     return st
 
 
-# >>> EngineTie (M6) ---------------------------------------------------------------------------------------------------
-ENGINE_TIE_PROPS = {"C01", "C02", "C03", "C04", "C05", "C06", "C08", "C09", "C10", "C17"}
+# >>> tie modules ------------------------------------------------------------------------------------------------------
+# A *tie module* is a file lean/PytaskProofs/Properties/<Name>Tie.lean whose first lines contain
+#     -- TIE-PROPS: C01 C02 …        the properties whose hand-written model it ties to the source
+#     -- TIE-SECTION: extract_xyz     (optional) the translator section whose facts its interpreters consume
+# It proves that a hand-written model equals the behaviour computed by interpreters from facts the translator read from the
+# source. It is discovered here (no registration elsewhere), built in a lake call of its own (a failure must not take the driver
+# away from the failing-input search) and audited in a `lean` call of its own (proof modules of different builders may not be
+# importable together); its theorems and examples count as obligations of the listed properties; a failure, or a failure of its
+# translator section, is PROOF-BROKEN for these properties only.
+def tie_modules() -> list[tuple[str, set[str], str | None, Path]]:
+    out = []
+    for f in sorted((LEAN / "PytaskProofs" / "Properties").glob("*Tie.lean")):
+        head = f.read_text()[:3000]
+        m = re.search(r"TIE-PROPS:\s*([C0-9 ]+)", head)
+        props = set(m.group(1).split()) if m else set()
+        ms = re.search(r"TIE-SECTION:\s*(\S+)", head)
+        out.append((f.stem, props, ms.group(1) if ms else None, f))
+    return out
 
 
-def _engine_tie(prop: str, st: LeanStatus) -> None:
-    """The theorems of the engine properties are about the hand-written model `Engine.lean`; `Properties/EngineTie.lean` proves
-    that model equal to the engine computed from the facts `extract_engine.py` reads from the source. For the engine properties
-    it is built (in a lake call of its own: a failure must not take the driver away from the failing-input search) and audited
-    (in a `lean` call of its own: proof modules of different builders may not be importable together); its theorems and
-    examples count as obligations of the property. A failure is PROOF-BROKEN for these properties only."""
-    tfile = LEAN / "PytaskProofs" / "Properties" / "EngineTie.lean"
-    if prop not in ENGINE_TIE_PROPS or not tfile.exists():
-        return
-    body = strip_comments(tfile.read_text())
-    names = ["Pytask." + n for n in re.findall(r"^\s*theorem\s+(\S+)", body, flags=re.M)]
-    mod = "PytaskProofs.Properties.EngineTie"
-    r = subprocess.run(["lake", "build", mod], capture_output=True, text=True, cwd=LEAN)
-    out = r.stdout + r.stderr
-    if r.returncode == 0:
-        af = LEAN / ".lake" / "audit" / f"Audit_EngineTie_{prop}_{os.getpid()}.lean"
-        af.write_text(f"import PytaskProofs.AuditTool\nimport {mod}\n#audit_module {mod}\n")
-        try:
-            r = subprocess.run(["lake", "env", "lean", str(af)], capture_output=True, text=True, cwd=LEAN)
-        finally:
-            af.unlink(missing_ok=True)
+def tie_sections_of(prop: str) -> set[str]:
+    return {sec for _, props, sec, _ in tie_modules() if sec and prop in props}
+
+
+def _ties(prop: str, st: LeanStatus, failed_sections: dict) -> None:
+    for name, props, sec, tfile in tie_modules():
+        if prop not in props:
+            continue
+        body = strip_comments(tfile.read_text())
+        names = ["Pytask." + n for n in re.findall(r"^\s*theorem\s+(\S+)", body, flags=re.M)]
+        mod = f"PytaskProofs.Properties.{name}"
+        if sec and sec in failed_sections:   # the (old) facts the theorems were checked against are not the source's
+            for n in names:
+                st.theorems[n] = st.bad_axioms[n] = ["<facts not extracted>"]
+            st.tie_msg = st.tie_msg or f"translator failed: section {sec}: {failed_sections[sec]}"
+            continue
+        r = subprocess.run(["lake", "build", mod], capture_output=True, text=True, cwd=LEAN)
         out = r.stdout + r.stderr
-    seen = {}
-    if r.returncode == 0:
-        for line in r.stdout.splitlines():
-            m = re.match(r".*AUDIT (\S+) \[(.*)\]\s*$", line)
-            if m and not re.search(r"\.(eq_\d+|eq_def|match_\d+|proof_\d+)$", m.group(1)):
-                seen[m.group(1)] = [a.strip() for a in m.group(2).split(",") if a.strip()]
-    for n in names:
-        axs = seen.get(n, ["<not proved>"])
-        st.theorems[n] = axs
-        if not set(axs) <= ACCEPTED_AXIOMS:
-            st.bad_axioms[n] = axs
-    if r.returncode == 0:
-        st.examples += len(re.findall(r"^\s*example\b", body, flags=re.M))
-    if st.tie_msg:   # the translator section failed: the (old) facts the theorems were checked against are not the source's
+        if r.returncode == 0:
+            af = LEAN / ".lake" / "audit" / f"Audit_{name}_{prop}_{os.getpid()}.lean"
+            af.write_text(f"import PytaskProofs.AuditTool\nimport {mod}\n#audit_module {mod}\n")
+            try:
+                r = subprocess.run(["lake", "env", "lean", str(af)], capture_output=True, text=True, cwd=LEAN)
+            finally:
+                af.unlink(missing_ok=True)
+            out = r.stdout + r.stderr
+        seen = {}
+        if r.returncode == 0:
+            for line in r.stdout.splitlines():
+                m = re.match(r".*AUDIT (\S+) \[(.*)\]\s*$", line)
+                if m and not re.search(r"\.(eq_\d+|eq_def|match_\d+|proof_\d+)$", m.group(1)):
+                    seen[m.group(1)] = [a.strip() for a in m.group(2).split(",") if a.strip()]
         for n in names:
-            st.theorems[n] = st.bad_axioms[n] = ["<facts not extracted>"]
-    elif r.returncode != 0 or any(n not in seen for n in names):
-        errs = [l.strip() for l in out.splitlines() if "error" in l][:4]
-        st.tie_msg = "EngineTie broken (the engine model no longer equals the engine extracted from the source): " + " | ".join(errs)
-        st.build_log += out[-3000:]
-# <<< EngineTie (M6) ---------------------------------------------------------------------------------------------------
+            alt = n.replace("Pytask.", "", 1)
+            axs = seen[n] if n in seen else (seen[alt] if alt in seen else ["<not proved>"])
+            st.theorems[n] = axs
+            if not set(axs) <= ACCEPTED_AXIOMS:
+                st.bad_axioms[n] = axs
+        if r.returncode == 0:
+            st.examples += len(re.findall(r"^\s*example\b", body, flags=re.M))
+        if r.returncode != 0 or any(st.theorems[n] == ["<not proved>"] for n in names):
+            errs = [l.strip() for l in out.splitlines() if "error" in l][:4]
+            st.tie_msg = st.tie_msg or (f"{name} broken (the hand-written model no longer equals the behaviour extracted from the source): "
+                                        + " | ".join(errs))
+            st.build_log += out[-3000:]
+# <<< tie modules ------------------------------------------------------------------------------------------------------
 
 
 def leanchecker(mods: list[str]) -> tuple[bool, str]:
     r = subprocess.run(["lake", "env", "leanchecker", *mods], capture_output=True, text=True, cwd=LEAN)
-    if r.returncode == 0 and any(m.rsplit(".", 1)[-1] in ENGINE_TIE_PROPS for m in mods) \
-            and (LEAN / "PytaskProofs" / "Properties" / "EngineTie.lean").exists():   # EngineTie (M6), in a call of its own
-        r = subprocess.run(["lake", "env", "leanchecker", "PytaskProofs.Properties.EngineTie"], capture_output=True, text=True, cwd=LEAN)
+    for name, props, _, _ in tie_modules():   # tie modules of the checked properties, each in a call of its own
+        if r.returncode == 0 and any(m.rsplit(".", 1)[-1] in props for m in mods):
+            r = subprocess.run(["lake", "env", "leanchecker", f"PytaskProofs.Properties.{name}"], capture_output=True, text=True, cwd=LEAN)
     return r.returncode == 0, (r.stdout + r.stderr)[-2000:]
 
 
